@@ -32,9 +32,9 @@ BASE_INTERVALS = [
 def bounds(tier):
     if tier == "quick":
         return {"max_pos": 3, "max_neg": 3, "easy": [[0, 0], [1, 0], [0, 2], [2, 2]],
-                "grids": ["irregular", "int"], "intervals": len(BASE_INTERVALS) + 1}
+                "grids": ["irregular", "int", "uint", "float32"], "intervals": len(BASE_INTERVALS) + 1}
     return {"max_pos": 4, "max_neg": 4, "easy": [[a, b] for a in range(4) for b in range(4)],
-            "grids": ["irregular", "int", "dyadic", "ulp"], "intervals": len(BASE_INTERVALS) + 1}
+            "grids": ["irregular", "int", "dyadic", "ulp", "uint", "float32"], "intervals": len(BASE_INTERVALS) + 1}
 
 
 def intervals(seed):
@@ -63,7 +63,11 @@ def run(item, ctx, tier, seed):
 
     b = bounds(tier)
     blocks = [tuple(x) for x in item["blocks"]]
-    pos, neg, vals = ot.concretise(blocks, item["grid"], seed)
+    import numpy as np
+
+    gkind = item["grid"]
+    pos, neg, vals = ot.concretise(blocks, "irregular" if gkind == "float32" else gkind, seed)
+    dt = {"uint": np.uint8, "float32": np.float32}.get(gkind)
     cross = any(a > 0 and c > 0 for a, c in blocks)
     anytie = any(a + c > 1 for a, c in blocks)
     ivs = intervals(seed)
@@ -73,7 +77,8 @@ def run(item, ctx, tier, seed):
         for ep, en in [tuple(e) for e in b["easy"]]:
             case = {"blocks": item["blocks"], "grid": item["grid"], "pos": pos, "neg": neg, "cfg": cfg,
                     "easy": [ep, en]}
-            ok, s = guarded(ctx, "construct", case, Scores, pos[::-1], neg[::-1], nb_easy_pos=ep, nb_easy_neg=en,
+            pin, nin = (pos[::-1], neg[::-1]) if dt is None else (np.array(pos[::-1], dtype=dt), np.array(neg[::-1], dtype=dt))
+            ok, s = guarded(ctx, "construct", case, Scores, pin, nin, nb_easy_pos=ep, nb_easy_neg=en,
                             score_class=sc, equal_class=ec)
             if not ok:
                 continue
